@@ -109,7 +109,12 @@ pub fn check_samples<R: std::io::Read + std::io::Seek>(
 pub fn open(bytes: &Rc<Vec<u8>>) -> Result<Mp4Reader<MonReader>, (String, Value)> {
     let len = bytes.len() as u64;
     let data = bytes.clone();
-    match panicmon::catch(move || Mp4Reader::read_header(MonReader::plain(data), len)) {
+    // generous logical budget: a reader that loops without consuming input ends with an
+    // I/O error ("budget exceeded") instead of hanging the worker
+    let ctl = crate::streams::Ctl::new();
+    ctl.budget_ops.set(50_000 + 64 * len);
+    ctl.budget_bytes.set((4 << 20) + 64 * len);
+    match panicmon::catch(move || Mp4Reader::read_header(MonReader::new(data, ctl), len)) {
         Err(p) => Err(("reader_panic".into(), json!({"call": "read_header", "site": p.site(), "msg": p.msg}))),
         Ok(Err(e)) => Err(("reader_open_error".into(), json!({"err": e.to_string()}))),
         Ok(Ok(m)) => Ok(m),
